@@ -39,7 +39,7 @@ fn build(cfg: &[u16]) -> Built {
 
 // C04 owns: the roster views (353 / 352 / 319) and the *presence* of JOIN/PART/KICK/NICK
 // announcements on the members (extra recipients are not judged here).
-fn owns(d: &Disc, _out: &StepOut) -> bool {
+fn owns(d: &Disc, _out: &StepOut, _t: &Trace) -> bool {
     match d {
         Disc::Missing { line, .. } => {
             (line[0] != "S" && ["JOIN", "PART", "KICK", "NICK"].contains(&line[1].as_str()))
